@@ -4,6 +4,7 @@ Executed for real: get_diagonal_indices, LDAWrapper.update / solve / _do_solve_1
 The wrapped solver is a counting contract oracle (op(A) x = b, pre-image candidates).
 """
 import itertools
+import warnings
 from fractions import Fraction
 import numpy as np
 import z3
@@ -111,6 +112,10 @@ def items(tier):
     if not q:     # (does not finish in the quick budget)
         out.append(dict(kind="history", id="n2-general-znone-cplx-span-real-rhs", n=2, mclass="general", zeros=[], hist="cplx-span",
                         tol=0, logical_dtype=True, timeout=900))
+    # concrete regression items (real library, real dense LU): blocks with linearly dependent columns (defect D31)
+    for mat in ("r3", "s3", "c3"):
+        for case in ("dependent", "dependent-3", "sum-in-block", "zero-and-dependent"):
+            out.append(dict(kind="rounding-regression", id="rounding-%s-%s" % (mat, case), mat=mat, case=case, trans=["N", "T", "H"]))
     # update() with a CHANGED sparsity pattern: dofs that were decoupled in the first matrix are coupled in the second
     for mclass in ("general", "symmetric"):
         for za, zb in (([[0, 1], [1, 0]], []), ([[0, 1]], [[1, 0]]), ([], [[0, 1], [1, 0]])):
@@ -188,7 +193,52 @@ def op(A, trans):
     return wrap(A.T.copy()).conj() if A.dtype == object else A.T.conj()
 
 
+REG_MATS = {"r3": [[4.0, 1.0, 0.5], [2.0, 5.0, 1.0], [0.25, 1.0, 3.0]],
+            "s3": [[4.0, 1.0, 0.5], [1.0, 5.0, 1.0], [0.5, 1.0, 3.0]],
+            "c3": [[4.0, 1.0 + 0.5j, 0.5], [2.0, 5.0 - 0.25j, 1.0j], [0.25, 1.0, 3.0 + 1.0j]]}
+
+
+def sc_rounding_regression(V, P, cfg):
+    """Regression items for the repaired defect D31 (two linearly dependent columns in ONE block left a round-off remainder
+    that was normalised and stored as an inconsistent pair: every later solve was wrong).  The defect lives in floating
+    point rounding, which the exact model cannot represent: concrete numbers on the real library with the real
+    SolverDenseLU; clause: every returned x solves op(A) x = b to 1e-9."""
+    from pymoto.solvers import LDAWrapper, SolverDenseLU
+    A = np.array(REG_MATS[cfg["mat"]])
+    n = A.shape[0]
+    b = np.array([1.0, -0.5, 0.75], dtype=A.dtype)
+    c = np.array([0.25, 2.0, -1.0], dtype=A.dtype)
+    blocks = {"dependent": np.stack([b, 1.7 * b], axis=1), "dependent-3": np.stack([b, -0.3 * b, 2.0 * b], axis=1),
+              "sum-in-block": np.stack([b, c, b + c], axis=1), "zero-and-dependent": np.stack([0 * b, b, 3 * b], axis=1)}
+    B = blocks[cfg["case"]]
+    if V.symbolic:
+        from symx import npshim
+        npshim.uninstall()          # plain floats on the real NumPy / SciPy
+    worst, nst = 0.0, -1
+    try:
+        with warnings.catch_warnings():
+            warnings.simplefilter("ignore")
+            w = LDAWrapper(SolverDenseLU())
+            w.update(A)
+            for t in cfg["trans"]:
+                M = op(A, t)
+                for rhs in (B, c, b + 2 * c, np.stack([c, b], axis=1)):
+                    x = w.solve(rhs.copy(), trans=t)
+                    worst = max(worst, float(np.max(np.abs(M @ x - rhs))) / float(np.max(np.abs(rhs))))
+            nst = len(w.x_stored)
+    finally:
+        if V.symbolic:
+            npshim.install()
+    ok = bool(np.isfinite(worst) and worst <= 1e-9)
+    if P is not None:
+        P.holds("rounding-regression:every-solve-solves", ok, kind="rounding-regression:%s" % cfg["case"])
+        P.holds("rounding-regression:database-size<=n", nst <= n, kind="rounding-regression:%s" % cfg["case"])
+    return dict(worst=worst if np.isfinite(worst) else 1e300, stored=float(nst))
+
+
 def scenario(V, P, cfg):
+    if cfg.get("kind") == "rounding-regression":
+        return sc_rounding_regression(V, P, cfg)
     import pymoto as pym
     from pymoto.solvers import LDAWrapper
     n = cfg["n"]
@@ -366,6 +416,11 @@ def run_item(cfg, tier):
 def replay(cfg, label, env, case):
     import warnings
     warnings.simplefilter("ignore")
+    if cfg.get("kind") == "rounding-regression":
+        obs = sc_rounding_regression(Vals(env=env), None, cfg)
+        bad = not (obs["worst"] <= 1e-9) or obs["stored"] > 3
+        return dict(reproduced=bool(bad), detail=dict(case=cfg["case"], matrix=REG_MATS[cfg["mat"]], worst_relative_residual=obs["worst"],
+                                                      stored_pairs=obs["stored"]))
     import pymoto as pym
     from pymoto.solvers import LDAWrapper
     V = Vals(env=env)
